@@ -28,18 +28,18 @@ variable {α β : Type}
 
 def pure (a : α) : Dist α := [(a, 1)]
 
-def scale (w : Rat) (d : Dist α) : Dist α := d.map fun p => (p.1, w * p.2)
+def scale (w : Rat) (d : Dist α) : Dist α := List.map (fun p => (p.1, w * p.2)) d
 
-def bind (d : Dist α) (f : α → Dist β) : Dist β := d.flatMap fun p => scale p.2 (f p.1)
+def bind (d : Dist α) (f : α → Dist β) : Dist β := List.flatMap (fun p => scale p.2 (f p.1)) d
 
-def map (f : α → β) (d : Dist α) : Dist β := d.map fun p => (f p.1, p.2)
+def map (f : α → β) (d : Dist α) : Dist β := List.map (fun p => (f p.1, p.2)) d
 
 /-- total weight of the outcomes satisfying `p` -/
 def mass : Dist α → (α → Bool) → Rat
   | [], _ => 0
   | x :: xs, p => (if p x.1 then x.2 else 0) + mass xs p
 
-def uniform (xs : List α) : Dist α := xs.map fun x => (x, 1 / (xs.length : Rat))
+def uniform (xs : List α) : Dist α := List.map (fun x => (x, 1 / (xs.length : Rat))) xs
 
 def sumW : List Rat → Rat
   | [] => 0
@@ -48,7 +48,7 @@ def sumW : List Rat → Rat
 /-- outcomes with positive weight, normalised (`random.choices`) -/
 def weighted (xs : List (α × Rat)) : Dist α :=
   let tot := sumW (xs.map (·.2))
-  (xs.filter fun p => decide (0 < p.2)).map fun p => (p.1, p.2 / tot)
+  List.map (fun p => (p.1, p.2 / tot)) (xs.filter fun p => decide (0 < p.2))
 
 def bernoulli (q : Rat) : Dist Bool := [(true, q), (false, 1 - q)]
 
@@ -295,7 +295,7 @@ def Env.get (env : Env) (i : Nat) : Val :=
 
 def Env.keys (env : Env) : List Nat := env.map (·.1)
 
-def intRange (l r : Int) : List Int := (List.range (r - l + 1).toNat).map fun k => l + (k : Int)
+def intRange (l r : Int) : List Int := List.map (fun (k : Nat) => l + (k : Int)) (List.range (r - l + 1).toNat)
 
 /-- `randint(left, right)` after the empty test -/
 def drawIntRange (strict : Bool) (l r : Int) : Dist (Option Val) :=
@@ -347,7 +347,7 @@ structure Prog where
 
 /-- dependencies point backwards: the graph is acyclic -/
 def Prog.WF (P : Prog) : Prop :=
-  ∀ i nd, P.nodes[i]? = some nd → ∀ j ∈ nd.deps, j < i
+  ∀ (i : Nat) (nd : Node), P.nodes[i]? = some nd → ∀ j ∈ nd.deps, j < i
 
 /-- sample node `i` itself (its dependencies are in `env`) and record the value under its identity -/
 def step (cfg : Cfg) (P : Prog) (i : Nat) (env : Env) : Dist (Option Env) :=
@@ -367,7 +367,7 @@ def visit (cfg : Cfg) (P : Prog) : Nat → Nat → Env → Dist (Option Env)
       match P.nodes[i]? with
       | Option.none => Dist.pure none
       | some nd =>
-        bindO (nd.deps.foldl (fun acc j => bindO acc (visit cfg P fuel j)) (Dist.pure (some env)))
+        bindO ((Node.deps nd).foldl (fun acc j => bindO acc (visit cfg P fuel j)) (Dist.pure (some env)))
           (step cfg P i)
 
 def visitList (cfg : Cfg) (P : Prog) (fuel : Nat) (js : List Nat) (env : Env) : Dist (Option Env) :=
@@ -384,14 +384,14 @@ def seqAlong (cfg : Cfg) (P : Prog) : List Nat → Env → Dist (Option Env)
 
 /-- the nodes a depth-first visit of `i` samples, given the identities already sampled (newest first) -/
 def orderNew (P : Prog) : Nat → Nat → List Nat → List Nat
-  | 0, i, _ => [i]
+  | 0, _, _ => []
   | fuel + 1, i, vis =>
     if vis.contains i then []
     else
       match P.nodes[i]? with
       | Option.none => [i]
       | some nd =>
-        (nd.deps.foldl (fun acc j => acc ++ orderNew P fuel j (acc.reverse ++ vis)) []) ++ [i]
+        ((Node.deps nd).foldl (fun acc j => acc ++ orderNew P fuel j (acc.reverse ++ vis)) []) ++ [i]
 
 def orderNewList (P : Prog) (fuel : Nat) (js : List Nat) (vis : List Nat) : List Nat :=
   js.foldl (fun acc j => acc ++ orderNew P fuel j (acc.reverse ++ vis)) []
